@@ -4,7 +4,7 @@ import common
 import session
 from props import session_common as sc
 
-COQ_TARGETS = ['props/C01.vo']
+COQ_TARGETS = ['props/C01.vo', 'model/YSessionSx.vo']
 TRUSTED = sc.TRUSTED + ['spec/RfcFsm.v: the RFC 4271 section 8 table profiled for an active-only speaker (hand-written '
                         'from the RFC; the oracle evaluates THIS table inside Coq on the implementation\'s reactions)']
 ASSUMPTIONS = sc.ASSUMPTIONS + ['single-connection regime (see C12 for overlapping connections)']
